@@ -37,6 +37,10 @@ Inductive c12_case :=
 (* (value, tolerance); the model side carries tolerance 0 *)
 Definition c12_obs := option (list (list (Q * Q))).
 
+(* the implementation's observation with one tolerance per column (compact form for the case files) *)
+Definition obs_cols (tols : list Q) (rows : list (list Q)) : c12_obs :=
+  Some (map (fun r => combine r (tols ++ repeat 0 (length r - length tols))) rows).
+
 Definition in_unitb (u : Q) : bool := Qle_bool 0 u && negb (Qle_bool 1 u).
 Definition is_permb (N : nat) (p : list nat) : bool :=
   (length p =? N)%nat && forallb (fun i => existsb (Nat.eqb i) p) (seq 0 N).
